@@ -91,7 +91,7 @@ def run(ctx):
     info, ok = vlib.proof_stage(ctx, PROP_FILE, ["Run/C16.v"])
     cov = dict(info)
     # obligations: every proved statement of the property file and of the AE development it rests on
-    dev = ["Properties/C16.v"] + ["AE/%s.v" % f for f in ("Basics", "Steps", "Inv", "Proofs", "Any", "Conv", "Hist", "Witness")]
+    dev = ["Properties/C16.v"] + ["AE/%s.v" % f for f in ("Basics", "Steps", "Inv", "Proofs", "Any", "Conv", "Hist", "More", "Witness")]
     n_stmts = sum(len(vlib.STMT.findall(open(os.path.join(vlib.COQ, f), encoding="utf-8").read())) for f in dev)
     cov["obligations"] = n_stmts
     cov["discharged"] = n_stmts if ok else 0
@@ -99,7 +99,7 @@ def run(ctx):
     cov["trusted_base"] = vlib.STD_TRUSTED + [
         "the RPC fault oracle is an explicit outcome list (a universally quantified argument of every theorem); Go's map iteration order is an explicit argument as well (universally quantified)",
         "the fake Delegate of harness/ae (fault injection, caller identification by stack inspection, msgpack round trip of the request, the endpoint's Check->Checks flattening) and the projection of structs.NodeService/HealthCheck onto the modelled fields; the catalog side is consul's real agent/consul/state.Store (EnsureRegistration, DeleteService, DeleteCheck, NodeServiceList, NodeChecks)",
-        "modelled, not verified: ae.StateSyncer timers and retry pacing (only 'a later full sync happens' is assumed); CheckUpdateInterval > 0 (deferred output sync, DeferCheck timers); ACL evaluation inside the servers (a refusal is an outcome of the fault oracle); the legacy Catalog.NodeServices fallback; enterprise namespaces/partitions; node locality",
+        "the deferred-output timer (CheckUpdateInterval > 0) is made to fire by the hook VerifFireDefer, which reschedules the REAL time.Timer to zero and waits for the real callback; when it fires by itself is not modelled; modelled, not verified: ae.StateSyncer timers and retry pacing (only 'a later full sync happens' is assumed); ACL evaluation inside the servers (a refusal is an outcome of the fault oracle); the legacy Catalog.NodeServices fallback; enterprise namespaces/partitions; node locality",
     ]
     assumptions = ["no concurrent catalog change between the read and the push of one full sync (C16_converges, C16_no_false_insync_full)",
                    "hypotheses of each theorem as printed in coq/Properties/C16.v"]
@@ -120,6 +120,7 @@ def run(ctx):
     vlib.log("C16: harness ran in %.0fs" % (time.time() - t0)); t0 = time.time()
     total = 0
     kinds = collections.Counter()
+    cfgs = collections.Counter()
     ops = collections.Counter()
     rpcs = collections.Counter()
     outcomes = collections.Counter()
@@ -130,6 +131,7 @@ def run(ctx):
         c = json.loads(line)
         total += 1
         kinds[c["kind"]] += 1
+        cfgs["CheckUpdateInterval>0" if c["hist"].get("defer") else "CheckUpdateInterval=0"] += 1
         steps_hist[len(c["hist"]["steps"])] += 1
         for s in c["hist"]["steps"]:
             ops[s["op"]] += 1
@@ -164,7 +166,7 @@ def run(ctx):
             f = vlib.match_known(PROP, sig)
             if f:
                 ctx.known(f, f["what"])
-                known_hits[sig["kind"]] += 1
+                known_hits[sig.get("cause") or sig["kind"]] += 1
             else:
                 new_fail.append((c, what, sig))
     seen = set()
@@ -177,7 +179,7 @@ def run(ctx):
         ctx.violation({"kind": "oracle", "reason": what, "signature": {k: v for k, v in sig.items() if k != "shrunk"},
                        "hist": sh["hist"], "faults": sh["faults"], "case_kind": c["kind"],
                        "replay_cmd": "build/bin/ae -replay <this file>"})
-    if mism and not new_fail:
+    if mism:  # reported whether or not the oracle objects as well
         c = mism[0]
         ctx.violation({"kind": "correspondence", "theorem": "Run.C16.check (model run = implementation, per step: result, RPC sequence, flags, catalog)",
                        "mismatching_cases": len(mism), "case_kind": c["kind"], "hist": c["hist"], "faults": c["faults"],
@@ -197,11 +199,13 @@ def run(ctx):
         "oracle_failures_unknown": len(new_fail),
         "known_finding_hits": dict(known_hits),
         "run_kinds": dict(kinds),
+        "config_mix": dict(cfgs),
         "op_mix": dict(ops),
         "rpc_mix": {names[k]: v for k, v in sorted(rpcs.items())},
         "rpc_outcomes": {onames[k]: v for k, v in sorted(outcomes.items())},
         "history_length_histogram": {str(k): v for k, v in sorted(steps_hist.items())},
-        "projected_away": ["RaftIndex of catalog rows", "HealthCheck.Type / Interval / Timeout", "NodeService.Weights / Meta (constant in the generated cases)", "node Address (not compared by updateSyncState)"],
+        "projected_away": ["RaftIndex of catalog rows", "NodeService.Weights / Meta / Kind / Proxy / Connect, HealthCheck.Notes / Definition (constant in the generated cases)", "node Address (not compared by updateSyncState)"],
+        "oracle_holds": "reflect.DeepEqual per field on copies with RaftIndex and the server-owned fields cleared (independent of IsSame); HealthCheck.Type/Interval/Timeout/ExposedPort are varied and compared",
         "samples": [{"kind": c["kind"], "faults": c["faults"], "steps": [s["op"] for s in c["hist"]["steps"]]} for c in coq_cases[:3] + coq_cases[-3:]],
         "exhaustive": False,
     })
